@@ -23,6 +23,8 @@ var c05PACResults = []string{
 	"PROXY proxy-a.example", "PROXY", "HTTPS proxy-b.example:8443; SOCKS5 socks-s.example:1080", "THROW", "PROXY 10.0.2.1:8080", "HTTP [bad:8080",
 	// lists whose first entry cannot be used: the request fails, the next entry is not a fallback
 	"SOCKS4 socks-s.example:1080; PROXY proxy-a.example:8080", "SOCKS socks-s.example:1080; DIRECT", "HTTP [bad:8080; HTTPS proxy-b.example:8443",
+	// lists whose first entry is empty ("empty meaning direct"): what follows is not a fallback either
+	"; PROXY proxy-a.example:8080", " ;HTTPS proxy-b.example:8443; DIRECT", ";;SOCKS5 socks-s.example:1080", "\t; PROXY proxy-a.example:8080",
 }
 
 var c05ConnectTo = []string{
@@ -484,6 +486,6 @@ func init() {
 		Shape: shapePol,
 		Real:  append([]string{"proxy selection (http_proxy.go: directDomains, directLocalhost, pacProxy), pac package incl. goja VM and result parsing, DialRedirectFromHostPortPairs, dialvia, martian connect paths"}, realForwarder...),
 		Stub:  stubCommon,
-		Rule:  "configuration drawn from {no upstream, static http/https/socks5 upstream, generated PAC script} x direct-domains include/exclude lists x proxy-localhost allow/direct x 0-3 --connect-to rules (blank fields, first match wins, rules that redirect the proxy hop itself) x optional MITM; requests plain (both forms), CONNECT and MITM-inner to token-named hosts with default/explicit ports. PAC scripts only compare host against literals; result strings cover DIRECT/empty/PROXY/HTTP/HTTPS/SOCKS5/lists/unknown keywords/SOCKS/SOCKS4/unparsable entries/throw. Recorder nodes at every origin, proxy, SOCKS and redirect address record node, listener address, form and TLS. Oracle = routing reference model. Non-trivial = every request answered and judged. Later additions: lists whose first entry is unusable followed by a usable one; the SOCKS node records what a non-SOCKS client sends; identity --connect-to rules; transient dial refusals.",
+		Rule:  "configuration drawn from {no upstream, static http/https/socks5 upstream, generated PAC script} x direct-domains include/exclude lists x proxy-localhost allow/direct x 0-3 --connect-to rules (blank fields, first match wins, rules that redirect the proxy hop itself) x optional MITM; requests plain (both forms), CONNECT and MITM-inner to token-named hosts with default/explicit ports. PAC scripts only compare host against literals; result strings cover DIRECT/empty/PROXY/HTTP/HTTPS/SOCKS5/lists/unknown keywords/SOCKS/SOCKS4/unparsable entries/throw. Recorder nodes at every origin, proxy, SOCKS and redirect address record node, listener address, form and TLS. Oracle = routing reference model. Non-trivial = every request answered and judged. Later additions: lists whose first entry is unusable followed by a usable one; the SOCKS node records what a non-SOCKS client sends; identity --connect-to rules; transient dial refusals; result lists whose first entry is empty.",
 	})
 }
